@@ -99,3 +99,44 @@ func VerifH_C19_GenModuli() {
 	}
 	vCover("C19-genmoduli-reached")
 }
+
+// The literal of a parameter object describes the object: building parameters from p.ParametersLiteral() gives back
+// the ring degree, the moduli, BOTH distributions (non-default secret and error distributions included), the ring
+// type, the default scale and the NTT flag.  (The binary / JSON encodings serialize this literal.)
+func VerifSetup_ParamsCase(i int) Parameters {
+	lit := ParametersLiteral{LogN: 4, Q: []uint64{193, 12289}, P: []uint64{257}, NTTFlag: true, DefaultScale: NewScale(1 << 20)}
+	switch i {
+	case 1:
+		lit.Xs, lit.Xe = ring.Ternary{H: 5}, ring.DiscreteGaussian{Sigma: 4.5, Bound: 27}
+	case 2:
+		lit.Xs = ring.Ternary{P: 0.25}
+		lit.RingType = ring.ConjugateInvariant
+	}
+	p, err := NewParametersFromLiteral(lit)
+	if err != nil {
+		panic(err)
+	}
+	return p
+}
+
+func VerifH_C19_ParametersLiteralDescribesTheParameters() {
+	for i, name := range []string{"defaults", "sparse-secret-wide-error", "quarter-density-secret-conjugate-invariant"} {
+		c := struct{ name string }{name}
+		p := VerifSetup_ParamsCase(i)
+		lit := p.ParametersLiteral()
+		vAssert(lit.Xs == p.Xs() && lit.Xe == p.Xe(), c.name+"-literal-carries-both-distributions")
+		vAssert(lit.LogN == p.LogN() && lit.RingType == p.RingType() && lit.NTTFlag == p.NTTFlag(), c.name+"-literal-carries-degree-ring-type-and-NTT-flag")
+		vAssert(len(lit.Q) == len(p.Q()) && len(lit.P) == len(p.P()), c.name+"-literal-carries-the-moduli")
+		same := len(lit.Q) == len(p.Q()) && len(lit.P) == len(p.P()) && lit.DefaultScale.Cmp(p.DefaultScale()) == 0
+		if same {
+			for i, q := range p.Q() {
+				same = same && lit.Q[i] == q
+			}
+			for i, q := range p.P() {
+				same = same && lit.P[i] == q
+			}
+		}
+		vAssert(same, c.name+"-literal-carries-the-moduli-and-the-default-scale")
+	}
+	vCover("C19-literal-reached")
+}
